@@ -39,6 +39,14 @@ impl TranspositionTable {
     }
 }
 
+#[cfg(flounder_verif)]
+impl TranspositionTable {
+    /// All (map key, entry) pairs, for auditing every cached claim.
+    pub fn verif_entries(&self) -> Vec<(u64, Entry)> {
+        self.table.iter().map(|(k, e)| (*k, *e)).collect()
+    }
+}
+
 #[derive(Copy, Clone, Debug, PartialEq)]
 pub struct Entry {
     pub hash_key: u64,
